@@ -529,11 +529,18 @@ leaps_before(struct dt_dt_s d)
 		on = res + 1 < nleaps && leaps_d[res + 1] == d.d.daisy;
 		break;
 	case DT_SEXY:
-	case DT_SEXYTAI:
-		res = leaps_before_si32(leaps_s, nleaps, (int32_t)d.sexy);
-		on = (res + 1U < nleaps) &&
-			(leaps_s[res + 1] == (int32_t)d.sexy);
+	case DT_SEXYTAI: {
+		/* the column is keyed by 32-bit stamps, don't let later
+		 * or earlier ones wrap around */
+		const int32_t sx =
+			d.sexy > INT32_MAX ? INT32_MAX
+			: d.sexy < INT32_MIN ? INT32_MIN
+			: (int32_t)d.sexy;
+
+		res = leaps_before_si32(leaps_s, nleaps, sx);
+		on = (res + 1U < nleaps) && (leaps_s[res + 1] == sx);
 		break;
+	}
 	case DT_YMCW:
 		/* the packed ymcw isn't in chronological order within
 		 * a month, so bisecting its column is no good */
@@ -1516,7 +1523,11 @@ dt_dtconv(dt_dttyp_t tgttyp, struct dt_dt_s d)
 				zidx_t zi;
 
 				sx = (dd - DAISY_UNIX_BASE) * SECS_PER_DAY + ss;
-				zi = leaps_before_si32(leaps_s, nleaps, sx);
+				zi = leaps_before_si32(
+					leaps_s, nleaps,
+					sx > INT32_MAX ? INT32_MAX
+					: sx < INT32_MIN ? INT32_MIN
+					: (int32_t)sx);
 				d.sexy = sx + leaps_corr[zi];
 				break;
 			}
